@@ -1,5 +1,7 @@
 //! `intern` gives the String intern library combined with Bump allocator.
 
+#[cfg(okane_verif)]
+use crate::verif::std;
 use std::{collections::HashMap, fmt::Debug, hash::Hash, iter::FusedIterator, marker::PhantomData};
 
 use bumpalo::Bump;
@@ -37,9 +39,20 @@ impl PartialEq for InternedStr<'_> {
 }
 
 /// Hash is based on the pointer, as it's interned.
+#[cfg(not(okane_verif))]
 impl Hash for InternedStr<'_> {
     fn hash<H: std::hash::Hasher>(&self, state: &mut H) {
         std::ptr::hash(self.0, state)
+    }
+}
+
+/// Under verification the hash is based on the content, so that the iteration order
+/// is a function of the simulated hash seed instead of the arena addresses.
+/// Consistent with `Eq`: one store never holds the same content twice.
+#[cfg(okane_verif)]
+impl Hash for InternedStr<'_> {
+    fn hash<H: std::hash::Hasher>(&self, state: &mut H) {
+        self.0.hash(state)
     }
 }
 
